@@ -340,6 +340,13 @@ def _random_point(rng, hyps, symbols, positive_only=False):
     return decide.extract_model(s.model(), symbols)
 
 
+EARLY_STOP_S = 120
+
+
+class _EnoughEvidence(Exception):
+    pass
+
+
 def run_item(harness, item, *, tier="quick", max_paths=256, timeout_ms=20000, cell_limit=4096,
              twin=False, validate=0, profile=False, seed=0, params=None, max_models=4):
     """explore all paths of harness(env) symbolically, decide every obligation, replay sat ones"""
@@ -353,6 +360,7 @@ def run_item(harness, item, *, tier="quick", max_paths=256, timeout_ms=20000, ce
     labels_seen = []
     twin_cands = set()
     dup_keys = {}
+    n_paths = [0]
 
     def one_run(twin_label=None, collect=True):
         env = Env("sym", tier=tier, seed=seed, twin_label=twin_label, params=params)
@@ -424,6 +432,11 @@ def run_item(harness, item, *, tier="quick", max_paths=256, timeout_ms=20000, ce
             res.inconclusive.append({"label": ob.label, "detail": v.detail, "cell": v.cell})
         if validate and len(val_points) < validate:
             val_points.append((out["hyps"], out["impl_terms"]))
+        n_paths[0] += 1
+        if pending_replays and time.time() - t_start > EARLY_STOP_S:
+            # counterexample candidates exist and the item has used its wall budget: go and replay them instead of
+            # exploring every remaining path (never taken on a tree where the property holds: no candidates there)
+            raise _EnoughEvidence()
         return None
 
     prof_funcs = set()
@@ -440,11 +453,15 @@ def run_item(harness, item, *, tier="quick", max_paths=256, timeout_ms=20000, ce
         if profile:
             sys.setprofile(profiler)
         try:
-            paths = explore(run_main, max_paths=max_paths)
+            try:
+                paths = explore(run_main, max_paths=max_paths)
+                res.paths = len(paths)
+            except _EnoughEvidence:
+                res.paths = n_paths[0]
+                res.notes.append(f"exploration stopped after {n_paths[0]} paths: counterexample candidates found and {EARLY_STOP_S}s used; remaining paths not explored")
         finally:
             if profile:
                 sys.setprofile(None)
-        res.paths = len(paths)
         res.functions = sorted(prof_funcs)
         if res.paths == 0:
             res.inconclusive.append({"label": "<no feasible path>", "detail": "assumptions unsatisfiable?"})
@@ -532,7 +549,7 @@ def run_item(harness, item, *, tier="quick", max_paths=256, timeout_ms=20000, ce
                     res.validation_errors.append(f"{label}: symbolic {mpmath.nstr(sv, 15)} vs numpy {mpmath.nstr(cv, 15)} at {_model_str(pt)}")
 
         # ---- reachability twin ------------------------------------------------------------------------
-        if twin and labels_seen:
+        if twin and labels_seen and not res.violations:      # an item that already fails needs no vacuity guard
             cands = sorted(twin_cands) or sorted(set(labels_seen))
             start = rng.randrange(len(cands))
             # a label that exists only symbolically (no concrete counterpart to replay against) is skipped: up to three tries
@@ -554,7 +571,12 @@ def run_item(harness, item, *, tier="quick", max_paths=256, timeout_ms=20000, ce
                                     found["replayed"] = True
                             except Exception:
                                 pass
-                explore(run_twin, max_paths=max_paths)
+                    if found["replayed"]:
+                        raise _EnoughEvidence()
+                try:
+                    explore(run_twin, max_paths=max_paths)
+                except _EnoughEvidence:
+                    pass
                 res.twin = bool(found["sat"] and found["replayed"])
                 res.notes.append(f"twin perturbed '{tl}': sat={found['sat']} replayed={found['replayed']}")
                 if res.twin or found["present"]:
